@@ -43,7 +43,8 @@ theorem preExec_none {T : Table} {s : State} {b : Blk} (h : preExec T s b = none
 /-- shape of `disconnectBlock`: an error changes nothing; success pops the tip. -/
 theorem disconnectBlock_cases {P : Params} {s s' : State} {b : Blk} {r : Option Err}
     (h : disconnectBlock P s b = (s', r)) :
-    s' = s ∨ ∃ tip rest s1, s.best = tip :: rest ∧ b.id = tip.id ∧ saveSeq s false b = .ok s1 ∧ r = none ∧
+    s' = s ∨ ∃ tip rest s1, s.best = tip :: rest ∧ b.id = tip.id ∧ saveSeq s false b = .ok s1 ∧
+      r = (if rest.isEmpty then some .panic else none) ∧
       s' = { s1 with h2h := upd s1.h2h b.height none,
                      last := (b.height : Int) - 1,
                      best := rest,
@@ -91,7 +92,7 @@ theorem static_pres (hi lo : Nat) (T : Table) :
     intro s s' h ha
     exact ⟨ha.2.2.1.trans h.1, ha.2.2.2.1.trans h.2.1, by rw [ha.2.2.2.2.1]; exact h.2.2⟩
   conn := by
-    intro s b s' h _ _ hc
+    intro s b s' h _ _ _ hc
     obtain ⟨tip, rest, s1, ptd, _, _, hex, hs1, _, rfl⟩ := connectBlock_ok hc
     have hf := saveSeq_frame hs1
     have hpre := preExec_none (T := T) (s := s) (b := b) hex
@@ -112,10 +113,11 @@ theorem static_pres (hi lo : Nat) (T : Table) :
       intro x hx t ht
       exact h.2.2 x (by rw [hbest]; exact List.mem_cons_of_mem _ hx) t ht
   store := by
-    intro s b s' h _ hs
+    intro s b s' _ h _ _ _ _ hs
     rcases storeBlock_cases hs with rfl | ⟨_, ptd, rfl⟩
     · exact h
     · exact h
+  addIdx := by intro s b src h _; exact h
   poolAdd := by intro s x h _; exact h
   poolDel := by intro s x h; exact h
   restart := by intro s h; exact h
@@ -167,10 +169,10 @@ theorem sig_pres (T : Table) :
     Pres (ofTable T) (fun _ => True) (fun t => (T t).sigOk = true) (SigInv T) where
   frame := by
     intro s s' h ha
-    refine ⟨by rw [ha.2.2.2.2.2.2.2.2.2.2.2.2.2.2]; exact h.1, ?_, by rw [ha.2.2.2.2.1]; exact h.2.2⟩
+    refine ⟨by rw [ha.2.2.2.2.2.2.2.2.2.2.2.2.2.2.1]; exact h.1, ?_, by rw [ha.2.2.2.2.1]; exact h.2.2⟩
     rw [ha.2.2.2.2.1, ha.2.2.2.2.2.1]; exact h.2.1
   conn := by
-    intro s b s' h _ _ hc
+    intro s b s' h _ _ _ hc
     obtain ⟨tip, rest, s1, ptd, _, _, hex, hs1, _, rfl⟩ := connectBlock_ok hc
     have hf := saveSeq_frame hs1
     have hpre := preExec_none (T := T) (s := s) (b := b) hex
@@ -226,7 +228,7 @@ theorem sig_pres (T : Table) :
       · intro x hx
         exact h.2.2 x (by rw [hbest]; exact List.mem_cons_of_mem _ hx)
   store := by
-    intro s b s' h _ hs
+    intro s b s' _ h _ _ _ _ hs
     rcases storeBlock_cases hs with rfl | ⟨hnone, ptd, rfl⟩
     · exact h
     · refine ⟨h.1, ?_, h.2.2⟩
@@ -237,6 +239,7 @@ theorem sig_pres (T : Table) :
       by_cases hid : x.id = b.id
       · rw [hid, hnone] at hx'; cases hx'
       · rw [if_neg hid]; exact hx'
+  addIdx := by intro s b src h _; exact h
   poolAdd := by
     intro s x h ha
     refine ⟨?_, h.2.1, h.2.2⟩
@@ -350,7 +353,7 @@ theorem uniq_pres (T : Table) (hnx : ∀ i, txhOf (T i) = none) (U : List Blk)
     have ht : s'.txIdx = s.txIdx := ha.2.2.2.2.2.2.2.2.2.2.2.2.1
     exact ⟨by rw [hb]; exact h.1, by rw [hb, ht]; exact h.2.1, by rw [hb]; exact h.2.2⟩
   conn := by
-    intro s b s' h _ hbU hc
+    intro s b s' h _ hbU _ hc
     obtain ⟨tip, rest, s1, ptd, _, _, hex, hs1, _, rfl⟩ := connectBlock_ok hc
     have hf := saveSeq_frame hs1
     have hpre := preExec_none (T := T) (s := s) (b := b) hex
@@ -435,10 +438,11 @@ theorem uniq_pres (T : Table) (hnx : ∀ i, txhOf (T i) = none) (U : List Blk)
       · intro hk
         exact ⟨fun hm => hdisj k hm k hk rfl, Or.inr hk⟩
   store := by
-    intro s b s' h _ hs
+    intro s b s' _ h _ _ _ _ hs
     rcases storeBlock_cases hs with rfl | ⟨_, ptd, rfl⟩
     · exact h
     · exact h
+  addIdx := by intro s b src h _; exact h
   poolAdd := by intro s x h _; exact h
   poolDel := by intro s x h; exact h
   restart := by intro s h; exact h
